@@ -580,7 +580,12 @@ func (e *Engine) intrinsic(st *State, fn *ssa.Function, args []Value, ci ssa.Val
 		for _, v := range e.sliceElems(st, args[0].(*Slice)) {
 			ts = append(ts, v.(*Term))
 		}
-		e.finish(st, ci, UF(fmt.Sprintf("xxh64_%d", len(ts)), 64, ts...), fd)
+		// (the low 32 bits, Tan's record checksum, are taken to be non-zero: a zero
+		// checksum is the zeroed-chunk marker only together with a zero length,
+		// so nothing but a case split is lost)
+		h := UF(fmt.Sprintf("xxh64_%d", len(ts)), 64, ts...)
+		st.pc = append(st.pc, Not(Cmp("=", Extract(31, 0, h), Const(32, 0))))
+		e.finish(st, ci, h, fd)
 		return true
 	case "crypto/md5.New":
 		dt := fn.Pkg.Type("digest").Type()
